@@ -2,6 +2,45 @@
 import os, sys
 from vcommon import *
 from e1 import H, run_e1, replay_file
+import e2
+sys.path.insert(0, os.path.join(VERIF, "harness", "llsym"))
+import core, z3
+from replay import Tr
+
+CRCS = {"crc8": ("a_crc8", 8), "crc16m": ("a_crc16m", 16), "crc16l": ("a_crc16l", 16), "crc32m": ("a_crc32m", 32), "crc32l": ("a_crc32l", 32),
+        "crc64m": ("a_crc64m", 64), "crc64l": ("a_crc64l", 64)}
+
+
+def split_harness(name, N):
+    """E2: with an ARBITRARY table (256 symbolic entries) and symbolic data / running value, feeding the message in two
+    pieces at every split point gives the same value as feeding it at once (terms built by executing the real code)."""
+    def h(ex):
+        tr = Tr(ex, "")
+        ex.path_tags = [name, "N=%d" % N]
+        if name in CRCS:
+            fn, w = CRCS[name]
+            tab = tr.alloc(256 * w // 8, "table")
+            for i in range(256):
+                tr.store(tab + i * w // 8, ex.fresh_bv("t%d" % i, w), w // 8)
+            ex.obj_at(tab).ro = True
+            call = lambda p, n, v: tr.call(fn, tab, p, n, v, ret="i64")
+        else:
+            w = 32
+            call = lambda p, n, v: tr.call("a_hash_%s_" % name, p, n, v, ret="i64")
+        d = tr.alloc(N, "data")
+        tr.store_bytes(d, [ex.fresh_bv("d%d" % i, 8) for i in range(N)])
+        v = ex.fresh_bv("v", w)
+        whole = call(d, N, v)
+        for k in range(N + 1):
+            part = call(d, k, v)
+            rest = call(d + k, N - k, part)
+            ex.check(core.bv(rest, w) == core.bv(whole, w) if (core.is_sym(rest) or core.is_sym(whole)) else rest == whole,
+                     "%s:pieces-differ-from-the-whole" % name, "split at %d of %d" % (k, N))
+    return h
+
+
+def split_builder(p):
+    return "%s/N%d" % p, split_harness(*p)
 
 PID = "C17"
 F = os.path.join(VERIF, "harness", "C17", "c17.c")
@@ -45,6 +84,12 @@ def main():
     res.assumptions = ["table CRC = bitwise remainder follows from (T) + (S1) + (C) by induction over bytes; the induction itself is a paper argument",
                        "CBMC bit-precise C semantics"]
     run_e1(res, cfg, hs, default_timeout=300 if T == "quick" else 1800)
+    NS = 8 if T == "quick" else 16
+    inst = [(n, k) for n in list(CRCS) + ["bkdr", "sdbm"] for k in sorted(set([1, 2, NS // 2, NS]))]
+    e2.run_e2(res, cfg, ["crc.c", "hash.c", "a.c"], inst, split_builder, group="split", validate_every=4, exec_attrs={"force_solver": True},
+              time_budget=300 if T == "quick" else 1500)
+    res.bounds["every split point (llsym)"] = "messages of 1, 2, %d, %d bytes, every split k = 0..n, arbitrary 256-entry table (symbolic), symbolic data and running value" % (NS // 2, NS)
+    e2.finish_coverage(res, must_cover=["a_crc32m", "a_crc64l", "a_hash_bkdr_"], report_funcs=None)
     return res.finish()
 
 
